@@ -31,7 +31,7 @@ NF = "filters::network::NetworkFilter"
 
 
 def check(run):
-    for cfg in ("A", "B"):
+    for cfg in run.cfgs("A", "B"):
         F = run.facts(cfg)
         run.guard("C04.1.routing", cfg, lambda: rule_routing(run, F, cfg))
         run.guard("C04.2.precedence", cfg, lambda: rule_precedence(run, F, cfg))
